@@ -6,6 +6,7 @@ import (
 	"encoding/json"
 	"expvar"
 	"fmt"
+	"io"
 	"math/rand"
 	"runtime"
 	"sort"
@@ -26,6 +27,9 @@ type c13case struct {
 	Page  int
 	Codec int
 	Ref   []byte // bytes of the sequential reference execution
+	// Shared: the writer is constructed from the process-wide option slice of its
+	// (page, codec) — the same slice for every instance with these options
+	Shared bool
 }
 
 func c13Cases(c *Ctx, n int) []*c13case {
@@ -42,7 +46,7 @@ func c13Cases(c *Ctx, n int) []*c13case {
 		if kind == GenStruct {
 			recs = pickSpread(recs, min(len(recs), nrec))
 		}
-		out = append(out, &c13case{ID: id, Shape: sh, Recs: recs, Part: RandomPartition(len(recs), rng), Page: []int{1, 2, 3, 7, 50, 1000}[rng.Intn(6)], Codec: []int{0, 0, 0, 1, 1, 1, 1, 1, 2, 0}[rng.Intn(10)]})
+		out = append(out, &c13case{ID: id, Shape: sh, Recs: recs, Part: RandomPartition(len(recs), rng), Page: []int{1, 2, 3, 7, 50, 1000}[rng.Intn(6)], Codec: []int{0, 0, 0, 1, 1, 1, 1, 1, 2, 0}[rng.Intn(10)], Shared: k%2 == 0})
 	}
 	return out
 }
@@ -76,7 +80,7 @@ func (cs *c13case) runWriter(rng *rand.Rand, events *[]int64) ([]byte, string) {
 	var werr error
 	func() {
 		defer func() { perr = recover() }()
-		w, err := cs.Shape.NewWriter(ys, cs.Page, cs.Codec)
+		w, err := cs.newWriter(ys)
 		if err != nil {
 			werr = err
 			return
@@ -101,6 +105,74 @@ func (cs *c13case) runWriter(rng *rand.Rand, events *[]int64) ([]byte, string) {
 		return nil, fmt.Sprintf("writer error: %v", werr)
 	}
 	return ys.Buf, ""
+}
+
+func (cs *c13case) newWriter(w io.Writer) (W, error) {
+	if cs.Shared && cs.Shape.NewWriterShared != nil {
+		return cs.Shape.NewWriterShared(w, cs.Page, cs.Codec)
+	}
+	return cs.Shape.NewWriter(w, cs.Page, cs.Codec)
+}
+
+// runInterleaved runs the histories of a and b (which may be the same history)
+// as two writer instances alive at the same time on ONE goroutine, their calls
+// merged in an order drawn from rng. Each instance must produce exactly the
+// bytes of its sequential reference.
+func runInterleaved(a, b *c13case, rng *rand.Rand) (ba, bb []byte, msg string) {
+	type inst struct {
+		cs   *c13case
+		sink *Sink
+		w    W
+		ops  []int // -1 new, -2 write, -3 close, >= 0 add record i
+		pos  int
+	}
+	mk := func(cs *c13case) *inst {
+		in := &inst{cs: cs, sink: &Sink{FailAt: -1}}
+		in.ops = append(in.ops, -1)
+		i := 0
+		for _, n := range cs.Part {
+			for j := 0; j < n; j++ {
+				in.ops = append(in.ops, i)
+				i++
+			}
+			in.ops = append(in.ops, -2)
+		}
+		in.ops = append(in.ops, -3)
+		return in
+	}
+	ins := []*inst{mk(a), mk(b)}
+	defer func() {
+		if e := recover(); e != nil {
+			msg = fmt.Sprintf("panic: %v", e)
+		}
+	}()
+	for ins[0].pos < len(ins[0].ops) || ins[1].pos < len(ins[1].ops) {
+		k := rng.Intn(2)
+		if ins[k].pos >= len(ins[k].ops) {
+			k = 1 - k
+		}
+		in := ins[k]
+		// a burst of 1..4 calls on this instance
+		for n := 1 + rng.Intn(4); n > 0 && in.pos < len(in.ops); n-- {
+			op := in.ops[in.pos]
+			in.pos++
+			var err error
+			switch op {
+			case -1:
+				in.w, err = in.cs.newWriter(in.sink)
+			case -2:
+				err = in.w.Write()
+			case -3:
+				err = in.w.Close()
+			default:
+				in.w.Add(in.cs.Shape.Schema().ToGo(in.cs.Recs[op]).Interface())
+			}
+			if err != nil {
+				return nil, nil, fmt.Sprintf("instance %d (%s): %v", k, in.cs.ID, err)
+			}
+		}
+	}
+	return ins[0].sink.Buf, ins[1].sink.Buf, ""
 }
 
 func (cs *c13case) runReader(rng *rand.Rand) string {
@@ -247,6 +319,41 @@ func runC13(c *Ctx) {
 				}
 				if b, msg := y.runWriter(frng, nil); msg != "" || !bytes.Equal(b, y.Ref) {
 					viol("bytes_depend_on_failed_instance", "indep/"+y.ID, fmt.Sprintf("after another instance (%s, %s) had failed, history %s: %s (bytes equal: %v)", x.ID, CodecNames[codec], y.ID, msg, bytes.Equal(b, y.Ref)))
+				}
+			}
+		}
+		// family 1c: two instances alive at the same time on one goroutine, calls interleaved:
+		// a history with itself (both instances share the option slice when Shared) and with the
+		// next history of the same struct
+		for i, cs := range cases {
+			id := "interleaved/" + cs.ID
+			if !c.Take(id) {
+				continue
+			}
+			partners := []*c13case{cs}
+			for d := 1; d < len(cases); d++ {
+				o := cases[(i+d)%len(cases)]
+				if o.Shape == cs.Shape {
+					partners = append(partners, o)
+					break
+				}
+			}
+			for pi, o := range partners {
+				for round := 0; round < 3; round++ {
+					irng := Rng(c.Seed, fmt.Sprintf("interleave/%s/%d/%d", cs.ID, pi, round))
+					ba, bb, msg := runInterleaved(cs, o, irng)
+					c.Out.Count("interleaved_instance_pairs", 1)
+					if cs.Shared && o.Shared && cs.Page == o.Page && cs.Codec == o.Codec {
+						c.Out.Count("interleaved_pairs_sharing_an_option_slice", 1)
+					}
+					switch {
+					case msg != "":
+						viol("interleaved_instances_fail", id, fmt.Sprintf("histories %s and %s as two writers alive at the same time on one goroutine: %s", cs.ID, o.ID, msg))
+					case !bytes.Equal(ba, cs.Ref):
+						viol("bytes_depend_on_other_live_instance", id, fmt.Sprintf("history %s, run while another writer (%s) was alive on the same goroutine (calls interleaved, no concurrency), produced different bytes (first difference at byte %d of %d/%d)", cs.ID, o.ID, firstDiffIdx(ba, cs.Ref), len(ba), len(cs.Ref)))
+					case !bytes.Equal(bb, o.Ref):
+						viol("bytes_depend_on_other_live_instance", id, fmt.Sprintf("history %s, run while another writer (%s) was alive on the same goroutine (calls interleaved, no concurrency), produced different bytes (first difference at byte %d of %d/%d)", o.ID, cs.ID, firstDiffIdx(bb, o.Ref), len(bb), len(o.Ref)))
+					}
 				}
 			}
 		}
